@@ -240,4 +240,15 @@ CLAIMS = {
         "technique": "conditional constant propagation of parse_token over first bytes and option values; dominance / "
                      "call-site audits",
     },
+    "C09": {
+        "text": "Claimed (alphabets only, a thin necessary condition): every punctuation character lexpr-macros accepts as the "
+                "first character of a symbol can start a symbol for the text parser, every character it joins into a "
+                "punctuation symbol continues a symbol in both text scanners, and its `#` identifiers t / f / nil are `#` "
+                "tokens of the text parser with the same meaning (all read from the `char` switches and constants in the "
+                "MIR of both crates). Spacing-driven joining, dotted-tail flattening, literal typing and unquote relate "
+                "two parsers over a language; that needs generated programs to be compiled and run and is not decided.",
+        "note": _TB + "proc_macro2::Punct::as_char yields the ASCII punctuation character.",
+        "technique": "switch-constant extraction from MIR of the macro crate compared with byte classes extracted from the "
+                     "text parser",
+    },
 }
